@@ -24,6 +24,8 @@ def main(argv=None):
     ap.add_argument("--dump-signatures", action="store_true", help="development aid: print every violation signature")
     args = ap.parse_args(argv)
     pid = args.prop.upper()
+    if args.tier == "thorough":
+        os.environ.setdefault("VERIF_CROSSCHECK", "1")
     try:
         mod = importlib.import_module(f"vf.props.{pid.lower()}")
         ctx = mod.run(args.tier)
